@@ -17,6 +17,7 @@ int vsim_peek_tls13_group(const ssl_t *ssl) { (void) ssl; return 0; }
 #endif
 int vsim_peek_insize(const ssl_t *ssl) { return ssl ? ssl->insize : 0; }
 int vsim_peek_outsize(const ssl_t *ssl) { return ssl ? ssl->outsize : 0; }
+const void *vsim_peek_outbuf(const ssl_t *ssl) { return ssl ? ssl->outbuf : 0; }
 int vsim_peek_err(const ssl_t *ssl) { return ssl ? ssl->err : 0; }
 #ifdef USE_DTLS
 int vsim_peek_dtls_flight_done(const ssl_t *ssl) { return ssl ? ssl->flightDone : 0; }
